@@ -11,13 +11,15 @@ TEXT = {
         "The piece-alone = piece-in-context clause (locality), 'no piece contains a semicolon token' and the agreement with Parse are decided by the five-equation oracle on the implementation and by correspondence; not yet carried by a theorem.",
    note="Partial proof: join/count/semicolon-byte proved on the model; locality, no-semi and parse-order are oracle + correspondence. Uses the generated keyword table (side condition: no keyword maps to the semicolon kind, decided by vm_compute on every run)."),
  "C01": dict(
-   text="Theorems: source parentheses are transparent to the writer at every level (C01_parens_transparent: same emitted pieces, so neither termination nor validity can depend on them); PQL precedence is the documented table; every operator the parser can build has a SQL rendering; the documented built-ins have the documented arities; every rewrite whose output is not a single SQL operand is parenthesised when used as an operand (the D3 defect class). "
-        "The two central clauses - the emitted text re-reads under SQL precedence as the translated tree, and evaluates like the PQL tree on every row - are not yet carried by a theorem: they are decided by byte-exact correspondence of the writer model with Compile on generated expression trees.",
-   note="Partial proof. Tables (precedence, binaryOps, knownFunctions with needsParens/arity/output templates) are regenerated from pql.go/parser.go on every run and the theorems re-checked against them. The SQL dialect's precedence is a written specification, not ClickHouse itself. Parameter snippets are copied verbatim and are outside the claim."),
+   text="Theorems: (meaning) for every expression tree, every row/environment (NULLs, join sides, groups) and every interpretation of the pass-through functions, the SQL tree the writer intends evaluates to the value of the PQL expression read with PQL's own grouping - ==/!= never NULL, =~/!~ through lower(), Kleene and/or, in, indexing, signs, each documented built-in rewritten, everything else passed through by name with its arguments (C01_meaning, by induction on the tree; closed under the global context). "
+        "(parentheses) source parentheses are transparent to the writer at every level, so neither termination nor validity depends on them. (tables) PQL precedence is the documented one; every operator the parser can build has a SQL rendering; built-ins have the documented arities; every rewrite whose output is not a single SQL operand is parenthesised when used as an operand. "
+        "Not yet a theorem: that the emitted *text*, re-read under SQL precedence, is that intended tree (C01_structure); it is decided by byte-exact correspondence of the writer model with Compile on generated trees, including exhaustive sign/parenthesis/index nestings to depth 4 and all small join conditions.",
+   note="Partial proof (meaning proved; text-to-tree re-reading by correspondence). Tables are regenerated from pql.go/parser.go on every run. The SQL expression semantics is a written specification (coq/Spec/Sem.v). Parameter snippets are copied verbatim and are outside the claim."),
  "C02": dict(
-   text="Theorems on the attach conditions regenerated from splitQueries/canAttachSort: a sort (or top) shares the previous SELECT only if that query exists, keeps its column names and has neither ORDER BY nor LIMIT yet; a take only if it has no LIMIT yet; project/summarize/as/render never take one. These are exactly the decisions that can move a limit across a sort or attach a sort to renamed columns. "
-        "The end-to-end statement (SQL evaluation = left-to-right interpretation on every database) is not yet carried by a theorem; it is decided by correspondence of the split/write model with Compile on all operator sequences up to length 3 (quick) / 4 (thorough) and random longer ones.",
-   note="Partial proof over generated tables; order-preserving reading of subqueries is an assumption about the target dialect."),
+   text="Theorem C02_pipeline (all operator sequences of any length without joins, all databases, all interpretations of pass-through functions): whenever applying the operators one after another, left to right, with PQL's reading of the expressions yields a table r, evaluating the subqueries built by splitQueries - each SELECT as source; operator; ORDER BY; LIMIT, later ones seeing earlier ones by name - with the SQL reading of the emitted expressions yields the same r (same columns, names, order; same rows, same order). The proof is an invariant over the split loop and uses the attach conditions regenerated from the source, so dropping one of them breaks it. "
+        "Further theorems state those conditions: sort/top share a SELECT only with a query that exists, keeps its names and has neither ORDER BY nor LIMIT; take only if it has no LIMIT; project/summarize/as/render never take one. "
+        "Sort-term defaults and the per-operator SELECT text (keys before aggregates etc.) are tied by byte-exact correspondence on all operator sequences up to length 3 (quick) / 4 (thorough).",
+   note="Proof on the structured subqueries of the model; the text rendering of each SELECT is tied by correspondence. C02_pipeline uses the standard-library axiom of functional extensionality (named in the evidence); C02_pipeline_generic is axiom-free. Order-preserving subqueries are an assumption about the dialect."),
  "C05": dict(
    text="Theorems: successful output ends with the statement terminator; no operator the parser can build reaches the 'unhandled binary op' fallback (table completeness, re-checked against binaryOps/operatorPrecedence on every run); every join kind the parser admits has a compiler case. "
         "Lexical well-formedness, bracket balance, WITH structure, name resolution/uniqueness/use of CTEs are decided by correspondence only so far.",
